@@ -78,14 +78,18 @@ class ReIterable:
         return LogIter(self.items, self.log)
 
 
+def _sized(elem, lo, hi):
+    return st.integers(lo, hi).flatmap(lambda n: st.lists(elem, min_size=n, max_size=n))
+
+
 def strategy(tier):
     src = st.fixed_dictionaries({
         'kind': st.sampled_from(['list', 'range', 'iter', 'iter', 'reiterable']),
-        'elems': st.lists(st.integers(0, len(VALUES) - 1), max_size=7)})
+        'elems': _sized(st.integers(0, len(VALUES) - 1), 0, 7)})
     cond = st.fixed_dictionaries({
         'kind': st.sampled_from(['pure', 'stateful', 'list', 'iter', 'cycle']),
-        'vals': st.lists(st.integers(0, len(CONDV) - 1), min_size=0, max_size=9)})
-    word = st.lists(st.sampled_from(['T', 'F', 'T', 'F', 'T', 'F', 'DT', 'DF', 'AT', 'AF']), max_size=12)
+        'vals': _sized(st.integers(0, len(CONDV) - 1), 0, 9)})
+    word = _sized(st.sampled_from(['T', 'F', 'T', 'F', 'T', 'F', 'T', 'F', 'DT', 'DF', 'AT', 'AF']), 0, 14)
     return st.fixed_dictionaries({'src': src, 'cond': cond, 'word': word,
                                   'end': st.sampled_from(['drain', 'drain', 'stop'])})
 
